@@ -123,4 +123,124 @@ theorem loc_list (L : List Label) (kind : Kind) (vs : List Label) (hn : L.Nodup)
           rw [← heq]; exact this
       simp only [hemp, hguard, Bool.false_eq_true, if_false]
 
+/-! ### tolerance (round 2): `np.argmin` of the distances -/
+
+/-- invariant of the scan of `np.argmin`: `best = l[bi]` is the first minimum of the first `i`
+elements of `l`, `ys` is the rest; the result is in range, a minimum of `l`, and the first one -/
+theorem argminRat_go_spec (l : List Rat) : ∀ (ys : List Rat) (best : Rat) (bi i : Nat),
+    l.drop i = ys → bi < i → i ≤ l.length → l.getD bi 0 = best →
+    (∀ j, j < i → best ≤ l.getD j 0) → (∀ j, j < bi → best < l.getD j 0) →
+    argminRat.go best bi i ys < l.length ∧
+    (∀ j, j < l.length → l.getD (argminRat.go best bi i ys) 0 ≤ l.getD j 0) ∧
+    (∀ j, j < argminRat.go best bi i ys → l.getD (argminRat.go best bi i ys) 0 < l.getD j 0) := by
+  intro ys
+  induction ys with
+  | nil =>
+    intro best bi i hd hbi hi hb hmin hfirst
+    have : l.length ≤ i := by simpa using hd
+    have hi' : i = l.length := by omega
+    subst hi'
+    simp only [argminRat.go]
+    rw [hb]
+    exact ⟨hbi, hmin, hfirst⟩
+  | cons y ys ih =>
+    intro best bi i hd hbi hi hb hmin hfirst
+    have hlt : i < l.length := by
+      rcases Nat.lt_or_ge i l.length with h | h
+      · exact h
+      · rw [List.drop_eq_nil_of_le h] at hd; cases hd
+    have hy : l.getD i 0 = y := by
+      rw [List.getD_eq_getElem?_getD, ← List.head?_drop, hd]; rfl
+    have hd' : l.drop (i+1) = ys := by
+      rw [← List.drop_drop, hd]; rfl
+    simp only [argminRat.go]
+    split
+    · rename_i hyb
+      apply ih y i (i+1) hd' (by omega) (by omega) hy
+      · intro j hj
+        rcases Nat.lt_or_ge j i with h | h
+        · have := hmin j h; grind
+        · have : j = i := by omega
+          subst this; rw [hy]; exact Rat.le_refl
+      · intro j hj
+        have := hmin j hj; grind
+    · rename_i hyb
+      apply ih best bi (i+1) hd' (by omega) (by omega) hb
+      · intro j hj
+        rcases Nat.lt_or_ge j i with h | h
+        · exact hmin j h
+        · have : j = i := by omega
+          subst this; rw [hy]; grind
+      · exact hfirst
+
+theorem ratAbs_nonneg (x : Rat) : 0 ≤ ratAbs x := by unfold ratAbs; split <;> grind
+theorem ratAbs_sub_self (q : Rat) : ratAbs (q - q) = 0 := by unfold ratAbs; split <;> grind
+theorem ratAbs_sub_le_zero {x q : Rat} (h : ratAbs (x - q) ≤ 0) : x = q := by
+  unfold ratAbs at h; split at h <;> grind
+
+/-- `np.argmin` on a non-empty list: in range, a minimum, and the first minimum -/
+theorem argminRat_spec (l : List Rat) (hl : l ≠ []) :
+    argminRat l < l.length ∧
+    (∀ j, j < l.length → l.getD (argminRat l) 0 ≤ l.getD j 0) ∧
+    (∀ j, j < argminRat l → l.getD (argminRat l) 0 < l.getD j 0) := by
+  cases l with
+  | nil => exact absurd rfl hl
+  | cons x xs =>
+    simp only [argminRat]
+    apply argminRat_go_spec (x :: xs) xs x 0 1 rfl (by omega) (by simp) rfl
+    · intro j hj
+      have : j = 0 := by omega
+      subst this; exact Rat.le_refl
+    · intro j hj; omega
+
+theorem Tol.ge_mono (t : Tol) {d d' : Rat} (hd : d' ≤ d) (h : t.ge d = true) : t.ge d' = true := by
+  cases t with
+  | inf => rfl
+  | fin x =>
+    simp only [Tol.ge, decide_eq_true_eq] at h ⊢
+    exact Rat.le_trans hd h
+
+theorem ratAbs_dist_getD (qs : List Rat) (q : Rat) (i : Nat) (hi : i < qs.length) :
+    (qs.map (fun x => ratAbs (x - q))).getD i 0 = ratAbs (qs.getD i 0 - q) := by
+  simp [List.getD_eq_getElem?_getD, List.getElem?_eq_getElem hi]
+
+/-- `locate_one` with a tolerance on numeric operands and a non-empty axis -/
+theorem locateOne_tol_unfold (L : List Label) (v : Label) (t : Tol) (q : Rat) (qs : List Rat)
+    (hv : v.toRat? = some q) (hL : L.mapM Label.toRat? = some qs) (hne : qs ≠ []) :
+    locateOne L v (some t) =
+      if t.ge (ratAbs (qs.getD (argminRat (qs.map (fun x => ratAbs (x - q)))) 0 - q)) then
+        .ok (argminRat (qs.map (fun x => ratAbs (x - q)))) else .error .index := by
+  have hem : qs.isEmpty = false := by cases qs with
+    | nil => exact absurd rfl hne
+    | cons _ _ => rfl
+  have hne' : qs.map (fun x => ratAbs (x - q)) ≠ [] := by simpa using hne
+  have hm := (argminRat_spec _ hne').1
+  rw [List.length_map] at hm
+  unfold locateOne
+  simp only [hv, hL, hem, Bool.false_eq_true, if_false, ratAbs_dist_getD qs q _ hm]
+
+theorem locateOne_tol_empty (L : List Label) (v : Label) (t : Tol) (q : Rat)
+    (hv : v.toRat? = some q) (hL : L.mapM Label.toRat? = some []) :
+    locateOne L v (some t) = .error .value := by
+  unfold locateOne
+  simp only [hv, hL, List.isEmpty_nil, if_true]
+
+/-- `np.argmin(np.abs(values - val))`: in range, nearest, and the first of the nearest -/
+theorem argminRat_dist_spec (qs : List Rat) (q : Rat) (hne : qs ≠ []) :
+    argminRat (qs.map (fun x => ratAbs (x - q))) < qs.length ∧
+    (∀ i, i < qs.length → ratAbs (qs.getD (argminRat (qs.map (fun x => ratAbs (x - q)))) 0 - q) ≤
+      ratAbs (qs.getD i 0 - q)) ∧
+    (∀ i, i < argminRat (qs.map (fun x => ratAbs (x - q))) →
+      ratAbs (qs.getD (argminRat (qs.map (fun x => ratAbs (x - q)))) 0 - q) < ratAbs (qs.getD i 0 - q)) := by
+  have hne' : qs.map (fun x => ratAbs (x - q)) ≠ [] := by simpa using hne
+  obtain ⟨h1, h2, h3⟩ := argminRat_spec _ hne'
+  rw [List.length_map] at h1 h2
+  refine ⟨h1, ?_, ?_⟩
+  · intro i hi
+    have := h2 i hi
+    rwa [ratAbs_dist_getD qs q _ h1, ratAbs_dist_getD qs q _ hi] at this
+  · intro i hi
+    have := h3 i hi
+    rwa [ratAbs_dist_getD qs q _ h1, ratAbs_dist_getD qs q _ (by omega)] at this
+
 end DimModel
